@@ -14,7 +14,7 @@ Guards must compare the very operands passed on; unsigned subtraction is a sourc
 unless dominated by `a >= b`; `Session::fetching` is guarded by `is_connected()`."""
 import re
 
-from .. import cfg, rules, flow, panic
+from .. import dbread, cfg, rules, flow, panic
 from ..cfg import expr_operand, show, nshow, walk, peel, peel_calls, base_value, graph
 from ..panic import Review
 
@@ -133,6 +133,8 @@ LOCAL_DB = "fails only on a local database/configuration fault, not on peer inpu
 
 TABLE = [
     # fn regex, source regex, class, reason, guard
+    (r".", r"^dbread:", "GUARDED", "the column's parser accepts everything this node's writer can have stored (hw/dbread.py: primitive / total parser / "
+     "keyword set agreeing with the writer / reviewed inverse encodings)", dbread.guard),
     (r"bounded::BoundedVec::drain$", r"vecop:Vec::drain", "SAFE", "only caller is Deserializer::deserialize_next with the cursor position of the same buffer (pos <= len)", None),
     (r"deserializer::Deserializer::new$", r"unwrap:Result::expect", "SAFE", "capacity is a compile-time constant at construction, checked against the const bound", None),
     (r"service::Service::(tick|wake)$", r"unwrap:Option::expect", "LOCAL", "started_at is set by initialize() before the reactor delivers any event (start-up order)", None),
@@ -151,7 +153,10 @@ TABLE = [
     (r"^<&str as radicle_node::wire::Encode>::encode$", r"panic:panicking::panic", "SAFE", "encode side only: strings come from Alias/UserAgent/hostnames bounded to <= 255 bytes by their parsers and decoders (u8 length prefix)", None),
     (r"^<radicle_git_ext::oid::Oid as radicle_node::wire::Decode>::decode$", r"unwrap:Result::expect", "GUARDED", "length checked to be exactly 20 first", guard_oid_len),
     (r"wire::frame::Version::number$", r"bounds:", "SAFE", "constant index 3 into [u8; 4]", None),
-    (r"wire::protocol::Streams::(open|register)$", r"unwrap:", "LOCAL", "stream ids are allocated locally (u16 sequence per connection, bounded by fetch concurrency); channel creation is local", None),
+    # Nb. only the `Result::expect`s: `nth()` (id arithmetic on our own sequence) and `Channels::pair` (local).  An `Option::expect`
+    # on the result of `register` ("stream was already open") is NOT local: the `open` control frame registers whatever id the
+    # remote names, including ids of our own space (finding F22) — it stays unreviewed so that it is reported if it comes back.
+    (r"wire::protocol::Streams::(open|register)$", r"unwrap:Result::expect", "LOCAL", "own stream sequence number arithmetic (bounded by the number of fetches of a connection); channel creation is local", None),
     (r"Handler>::handle_transport_event$", r"unwrap:Option::unwrap", "ASSUMED", "NoiseXK always yields the remote static key (cyphernet handshake)", None),
     (r"Handler>::handle_transport_event$", r"panic:panicking::assert_failed", "ASSUMED", "NoiseXK initiator pins the responder key: a handshake with another key does not complete (cyphernet)", None),
     (r"Handler>::handover_transport$", r"panic:", "ASSUMED", "reactor hands over only transports that were disconnected (reactor contract)", None),
